@@ -117,3 +117,9 @@ Lemma fix_body_parse p d : parse_float (fix_body p d) = Some (dq p d).
 Proof. rewrite <- (lpad0 (fix_body p d)). exact (fix_roundtrip 0 p d). Qed.
 Lemma int_body_parse z : parse_int (int_body z) = Some z.
 Proof. rewrite <- (lpad0 (int_body z)). exact (int_roundtrip 0 z). Qed.
+
+Lemma int_body_parse_float z : parse_float (int_body z) = Some (dnorm (Dec (z <? 0)%Z (Z.abs_N z) 0)).
+Proof.
+  pose proof (parse_float_body 0 (z <? 0)%Z (digitsN (Z.abs_N z)) [] (digitsN_lt10 _) (Forall_nil _) (digitsN_nonnil _)) as H.
+  rewrite lpad0 in H. unfold body_of in H. rewrite !app_nil_r in H. rewrite bval_digitsN in H. exact H.
+Qed.
